@@ -1,4 +1,6 @@
--- stub: component `visit` not built yet
+import Driver.Visit
+open Driver
+
 def main : IO UInt32 := do
-  IO.eprintln "driver-visit: not implemented"
-  return 2
+  runComponent () Visit.step
+  return 0
